@@ -638,6 +638,9 @@ class RiscvParser(Parser):
     def _process_labels(self) -> None:
         """Computes the addresses of all labels in the text segment and stores them in self.labels"""
         instruction_address = self.start_address
+        # source lines whose in-line label has been mapped already (a pseudo-instruction
+        # expands to several entries that share its line number)
+        mapped_in_line_labels: set[int] = set()
 
         for line_number, line, line_parsed in self.text:
             # line is a label
@@ -651,7 +654,11 @@ class RiscvParser(Parser):
                 )
             else:
                 # in line label
-                if line_number in self.in_line_labels:
+                if (
+                    line_number in self.in_line_labels
+                    and line_number not in mapped_in_line_labels
+                ):
+                    mapped_in_line_labels.add(line_number)
                     self._add_label_mapping(
                         self.in_line_labels[line_number],
                         instruction_address,
